@@ -8,6 +8,14 @@ TRUSTED = ("Trusted base: go/types+go/ssa construction of the verified text, the
            "assumed contracts of external functions are listed per run in the evidence file (assumptions[]).")
 
 claimed = {
+ "C02": dict(
+   text="VerifyBLSSignatureOneMessage is proved to be Verify under the affine sum (spec-level fold e2sum) of the keys' points, with the error classes of an empty list, a non-BLS key, a nil or ill-sized hasher, and (false, nil) for a wrong-length signature or keys summing to the identity. "
+        "VerifyBLSSignatureManyMessages: input validation exact (wrong-length signature => (false,nil) first; empty list, mismatched lengths, nil/ill-sized hasher, non-BLS key => the documented error classes; any identity key => (false,nil)); the two flattening loops (iteration over the two maps, nested loop over the hashes of a key) are proved to establish the preconditions of the C functions: "
+        "counts per group >= 1, every hash 128 bytes long, len(flat hashes) = 128 * number of hashes, len(allPks) = sum of the per-hash key counts (ghost sum of the value lengths of a map and of the values visited by an iteration), so that every offset the C code computes stays inside its buffer. "
+        "C (clang AST): bls_verifyPerDistinctMessage and bls_verifyPerDistinctKey return VALID exactly when the signature is a canonical encoding of a G1 point and the product of pairings over (signature, -g2) and the groups is one, where per message the group's G2 operand is the sum of its keys (E2_sum_vector, offsets = prefix sums isum) and per key the G1 operand is the sum of the hash-to-curve images of its messages; never UNDEFINED; the temporary array is large enough for the largest group. "
+        "NOT decided: that the two groupings give the same verdict as the ungrouped product over the input triples (bilinearity + commutativity: paper step); independence of the Go map iteration order (same paper step); Fp12_multi_pairing itself (N_MAX batching, infinity operands skipped) is an assumed contract.",
+   note=TRUSTED + " BLST primitives and Fp12_multi_pairing (= left fold of gtMul over gtPair) are assumed; hash-to-curve is a function of the 128 bytes (chunk lemma proved from the extensionality of byte-string names, which is assumed); iteration over an unmodified Go map visits every key exactly once (counts and value-length sums of the visited keys: assumed semantics); len(pks) <= 2^24-1 is a precondition (the C code counts bytes in an int).",
+   design="§0.2, §5 C02"),
  "C04": dict(
    text="Every aggregation function is proved, for all list lengths and contents, to return THE sum of its inputs in the group it works in, stated with spec-level left folds (e1sum / e2sum / frsum: identity for n <= 0, add(sum(n-1), x[n-1]) otherwise) over the uninterpreted BLST additions: "
         "C (from the clang AST): Fr_sum_vector, E1_sum_vector, E2_sum_vector (loop invariant `partial sum`), E2_sum_vector_to_affine (= affine form of the sum, infinity preserved), E2_subtract_vector (= x + (-(sum y))), "
